@@ -155,6 +155,14 @@ def rule_affine(ctx):
     s = ctx.S.get(f.qual)
     t = s.returns[0].term
     good = t.op == "sub" and t.a[1].op == "cmp" and t.a[1].a[0] == "<=" and t.a[1].a[1].op == "param" and t.a[1].a[1].a[0] == "min_beat_time"
+    if not good:
+        # any spelling C03.BEATTRIM accepts as "keeps exactly the beats >= min_beat_time"
+        from . import c03
+
+        try:
+            good = all(o.ok for o in c03.rule_beattrim(ctx))
+        except AnalysisError:
+            good = False
     callers = sorted({g.qual for g in ctx.program.all_funcs() for c in ctx.S.get(g.qual).calls() if c.callee == "beat.trim_beats"})
     yield ob(R, f, "beat.trim_beats:only-in-evaluate", good and callers == ["beat.evaluate"], "beats >= min_beat_time are kept; the only caller is beat.evaluate (the property's stated caveat)")
 
